@@ -87,9 +87,9 @@ Print Assumptions C17_equal_layout_independent_if.
 (* F01, the code as found: bit lists that differ, and a bit list and a void list of one
    length, are Equal although the documented equality of their walked trees is false *)
 Theorem C17_equal_prefix_refuted :
-  eq_res (run_equal 20 cfg0 cfg0 (mkEFix false rdfix) (msg_bits 5) [] (msg_bits 2) [] false SelRoot SelRoot) = EOk true
+  eq_res (run_equal 20 cfg0 cfg0 (mkEFix false false rdfix) (msg_bits 5) [] (msg_bits 2) [] false SelRoot SelRoot) = EOk true
   /\ fst (fst (spec_equal 20 cfg0 cfg0 rdfix (msg_bits 5) [] (msg_bits 2) [] false SelRoot SelRoot 1024 64)) = Some false
-  /\ eq_res (run_equal 20 cfg0 cfg0 (mkEFix false rdfix) (msg_bits 5) [] msg_void [] false SelRoot SelRoot) = EOk true
+  /\ eq_res (run_equal 20 cfg0 cfg0 (mkEFix false false rdfix) (msg_bits 5) [] msg_void [] false SelRoot SelRoot) = EOk true
   /\ fst (fst (spec_equal 20 cfg0 cfg0 rdfix (msg_bits 5) [] msg_void [] false SelRoot SelRoot 1024 64)) = Some false.
 Proof. exact equal_prefix_refuted. Qed.
 Print Assumptions C17_equal_prefix_refuted.
